@@ -14,7 +14,9 @@ RULE = ("Generated: smooth&decomposable DAGs over every input type (categorical 
         "variable so that folded evidence layers are heterogeneous), 1..3 outputs, renumbered variables; "
         "shapes: evidence(c, obs) with a drawn non-empty observation (partial or complete, in-domain values), "
         "evidence then integrate, evidence of evidence, concatenate of 1..3 circuits (also concatenate of "
-        "evidence circuits); x semiring x fold x optimize. Oracle: numpy reference of the operand on inputs "
+        "evidence circuits of different bases, and of 2..3 evidence circuits of ONE base with different - half of "
+        "the time complementary - observations, sometimes with the base itself); observed values of continuous "
+        "variables are floats or Python ints; x semiring x fold x optimize. Oracle: numpy reference of the operand on inputs "
         "whose observed columns are overwritten; scope(result) == scope - obs; complete observation => empty "
         "scope and (O,K) output; concatenate == operands' reference outputs stacked in the given order and == "
         "each operand compiled alone in the same compiler. Non-trivial = compared and (>= 2 observed variables "
@@ -31,7 +33,7 @@ def _case(draw, tier):
     cfg = opcheck.draw_cfg(draw)
     sem = cfg["semiring"]
     shape = draw(st.sampled_from(["evidence", "evidence", "evidence", "evidence-integrate", "evidence-twice",
-                                  "concat", "concat-evidence"]))
+                                  "concat", "concat-evidence", "concat-evidences-of-one"]))
     types = INTEG if shape == "evidence-integrate" else ALL
     kw = dict(max_vars=5 if big else 4, max_K=3, input_types=types, ncat_max=4)
     if sem == "lse-sum":
@@ -39,7 +41,7 @@ def _case(draw, tier):
     elif sem == "complex-lse-sum":
         kw.update(cx=True)
     if shape.startswith("concat"):
-        n = draw(st.integers(1, 3))
+        n = 1 if shape == "concat-evidences-of-one" else draw(st.integers(1, 3))
         bases = draw(gen.sd_pair(n=n, same_vtree=False, same_K=True, multi_out=True, **kw))
     else:
         bases = [draw(gen.sd_circuit(same_scope_outputs=(shape == "evidence-integrate"), **kw))]
@@ -67,6 +69,23 @@ def _case(draw, tier):
         if draw(st.integers(0, 2)) == 0:  # the same operand may occur twice
             order.insert(draw(st.integers(0, len(order))), draw(st.sampled_from(order)))
         pipe.append({"op": "concatenate", "as": order})
+    elif shape == "concat-evidences-of-one":
+        # several evidence circuits of ONE base with different (half of the time complementary) observations,
+        # concatenated in a drawn order, sometimes together with the base itself
+        k = len(scope)
+        obss = []
+        if k >= 2 and draw(st.booleans()):
+            perm = list(draw(st.permutations(scope)))
+            cut = draw(st.integers(1, k - 1))
+            for part in (perm[:cut], perm[cut:]):
+                obss.append(opcheck.draw_obs(draw, dom, part, min_size=len(part)))
+        else:
+            for _ in range(draw(st.integers(2, 3))):
+                obss.append(opcheck.draw_obs(draw, dom, scope, max_size=max(1, k - 1)))
+        for obs in obss:
+            pipe.append({"op": "evidence", "a": 0, "obs": obs})
+        ids = list(range(1, 1 + len(obss))) + ([0] if draw(st.integers(0, 2)) == 0 else [])
+        pipe.append({"op": "concatenate", "as": list(draw(st.permutations(ids)))})
     else:
         nb = len(bases)
         obs = opcheck.draw_obs(draw, dom, scope)
